@@ -51,3 +51,12 @@ VARIANTS += [
          [(UN3, "zip(gatedef.parameters, gate.parameters.values())", "zip(gate.parameters.values(), gatedef.parameters)")],
          ("C03.3", "parameter-pairing"), ("C03",)),
 ]
+GD18 = "src/jaqalpaq/core/gatedef.py"
+VARIANTS += [
+    fire("c18-idle-refusal-polarity",
+         [(GD18, '        if gate.name in ("prepare_all", "measure_all"):\n            raise JaqalError(f"Cannot make an idle gate for {gate.name}")', '        if gate.name not in ("prepare_all", "measure_all"):\n            raise JaqalError(f"Cannot make an idle gate for {gate.name}")')],
+         ("C18.2", "prepare-measure-refused"), ("C18",)),
+    fire("c18-stretched-update-flag-inverted",
+         [(ST18, "    if update:\n        gates.update(new_gates)", "    if not update:\n        gates.update(new_gates)")],
+         ("C18.3", "stretched_gates:update-flag"), ("C18",)),
+]
